@@ -401,6 +401,11 @@ def run_property(mod, tier, seed, only_source=None):
             mod.prepare(ctx)
         except Exception as e:
             from . import build
+            if isinstance(e, build.TreeViolation):
+                rp = write_replay(pid, {"property": pid, "source": "prepare", "case": e.case, "fail": {"msg": e.msg, "sig": ""}, "tier": tier, "seed": seed})
+                print("VIOLATION property=%s replay=%s" % (pid, rp))
+                print("  what: %s" % e.msg[:3000])
+                return 1
             if isinstance(e, build.BuildError):
                 print("BROKEN-TREE: %s" % e)
                 return 2
@@ -559,7 +564,18 @@ def replay(mod, path):
     open_f, _ = load_findings(mod.ID)
     ctx.known = {}
     try:
-        mod.prepare(ctx)
+        try:
+            mod.prepare(ctx)
+        except Exception as e:
+            from . import build
+            if isinstance(e, build.TreeViolation):
+                print("VIOLATION property=%s replay=%s" % (mod.ID, path))
+                print("  what: %s" % e.msg[:3000])
+                return 1
+            raise
+        if rec["source"] == "prepare":
+            print("replay passes: property=%s %s" % (mod.ID, path))
+            return 0
         src = [s for s in mod.sources(ctx) if s.name == rec["source"]][0]
         res = src.check(rec["case"], ctx)
         if res.fail is not None:
